@@ -589,3 +589,40 @@ Definition styles_wf (t : tree) : bool :=
   forallb (fun x => nodup_str (map fst (node_sty x)) && nodup_str (map fst (edge_sty x))
                     && negb (existsb (str_eqb s_label) (map fst (node_sty x))))
           (pre (compact t)).
+
+(* ============================================================================================== *)
+(* 5. several trees in one dot graph; edge labels of the mermaid flowchart *)
+
+(* parent links of a list of trees drawn one after the other: indices run on *)
+Fixpoint forest_links (off : nat) (ts : list tree) : list (nat * nat) :=
+  match ts with
+  | [] => []
+  | t :: r => fst (plinks off t) ++ forest_links (off + tsize t) r
+  end.
+
+Definition prop_C18_gf (ts : list tree) (verts edges : list (str * str)) : bool :=
+  let cs := map compact ts in
+  list_eqb str_eqb (map snd verts) (map tname (flat_map pre cs))
+  && graph_ids_distinct verts
+  && (let ids := map fst verts in
+      let want := map (fun pc => (nth (fst pc) ids [], nth (snd pc) ids [])) (forest_links 0 cs) in
+      Nat.eqb (length edges) (length want) && forallb (fun e => existsb (pair_eqb e) edges) want).
+
+Definition prop_C18_attrs_f (o : dotopts) (ts : list tree) (vattrs eattrs : list sdict) : bool :=
+  all2 (vertex_attrs_ok o) (flat_map (fun t => pre (compact t)) ts) vattrs
+  && all2 (edge_attrs_ok o) (flat_map (fun t => tl (pre (compact t))) ts) eattrs.
+
+(* the label written on the edge that leads to a node: the node's own `lbl` attribute when edge
+   labels are requested and the attribute is a non-empty string, none otherwise *)
+Definition s_lbl : str := [108; 98; 108]%N.
+Definition own_edge_label (with_labels : bool) (x : tree) : option str :=
+  if with_labels then
+    match (fix look (d : list (str * val)) : option val :=
+             match d with [] => None | (k, v) :: r => if str_eqb s_lbl k then Some v else look r end)
+          (scalar_attrs x) with
+    | Some (VStr (c :: s)) => Some (c :: s)
+    | _ => None
+    end
+  else None.
+Definition m_edge_labels_ok (with_labels : bool) (t : tree) (labels : list (option str)) : bool :=
+  all2 (fun x l => opt_eqb str_eqb (own_edge_label with_labels x) l) (tl (pre t)) labels.
